@@ -82,6 +82,32 @@ def run(tier, seed):
                 ok, obs = False, f"raises {e!r}"
             b.case(("palette", n, tuple(s for s, _ in pal)), ok, observed=obs, inputs={"data": data.hex(), "palette_sizes": [s for s, _ in pal]})
     b.add_to(rep)
+    pk = Bounded("pack-without-size-and-out-of-range", "values -70000..70000 (every value near a power of two, every 37th otherwise) and +-2**k+-1 up to 2**70, size omitted / widths 8..64, four spellings: unpack inverts pack whenever pack returns; a value that does not fit the requested width raises OverflowError")
+    cand = sorted({v for k in range(0, 71) for v in ((1 << k) - 1, 1 << k, (1 << k) + 1, -(1 << k) - 1, -(1 << k), -(1 << k) + 1)} | set(range(-70000, 70001, 37)) | set(range(-300, 301)))
+    for v in cand:
+        for sp in ("little", "big", "<", "!"):
+            try:
+                raw = utils.pack(v, None, sp)
+                back = utils.unpack(raw, None, sp, v < 0)
+                ok, obs = back == v, f"pack({v}) = {raw.hex()}, unpack(.., sign={v < 0}) = {back}"
+            except OverflowError:
+                ok, obs = True, None  # refusing is allowed, altering is not
+            except Exception as e:  # noqa: BLE001
+                ok, obs = False, f"pack({v}) raises {type(e).__name__}: {e}"
+            pk.case((v, sp, None), ok, observed=obs, inputs={"value": v, "endian": sp, "size": None})
+        if abs(v) <= 1 << 66:
+            for bits in (8, 16, 24, 32, 64):
+                fits = -(1 << (bits - 1)) <= v < (1 << bits)
+                try:
+                    raw = utils.pack(v, bits, "little")
+                    ok = fits and len(raw) == bits // 8 and utils.unpack(raw, bits, "little", v < 0) == v
+                    obs = f"pack({v}, {bits}) = {raw.hex()} (fits={fits})"
+                except OverflowError:
+                    ok, obs = not fits, f"pack({v}, {bits}) raises OverflowError although the value fits"
+                except Exception as e:  # noqa: BLE001
+                    ok, obs = False, f"pack({v}, {bits}) raises {type(e).__name__}: {e}"
+                pk.case((v, bits), ok, observed=obs, inputs={"value": v, "size": bits})
+    pk.add_to(rep)
     d = Bounded("dumpstruct", "structures of family F (fixed and dynamic, bit-fields, enums, arrays, nested, anonymous) x colour on/off x parsed instance / class+data")
     from t2 import sets
 
